@@ -63,7 +63,10 @@ func phiNZ(ph *ssa.Phi, depth int, assumed map[*ssa.Phi]bool) bool {
 			raw = append(append([]core.Fact{}, raw...), core.CondFacts(iff.Cond, pred.Succs[0] == ph.Block(), iff)...)
 		}
 		at := pred.Instrs[len(pred.Instrs)-1]
-		if ok, _ := nonZeroModQ(e, at, core.ExpandFacts(raw, 3), depth+1); !ok {
+		facts := core.ExpandFacts(raw, 3)
+		// inside a private helper: what every call site established (the id handed in was tested there)
+		facts = append(append([]core.TFact{}, facts...), core.CallerFacts(ph.Parent())...)
+		if ok, _ := nonZeroModQ(e, at, facts, depth+1); !ok {
 			return false
 		}
 	}
